@@ -99,6 +99,16 @@ def extra(binary, build, tier, rng):
         items = ",".join(map(str, range(n)))
         tail = ",".join([str(T)] * (n - 2))      # exactly the n - 2 further draws: a rejected first word makes the script run dry (no outcome)
         ps.append(("shuffle(%d elements): element sent to the end by the first draw" % n, n, 64, (lambda w, items=items, tail=tail: "shuf items=%s words=%d,%s" % (items, w, tail)), last))
+    # the SECOND step of partial_shuffle draws from a range with a non-zero base (`range(1..len)`): which element is placed second, counted over all
+    # words - and over the words behind a rejected one (a retry path of its own must add the base as well).  The first word (1) is accepted by
+    # every length and leaves the slice as it is.
+    def second(res):
+        f = O.parse_ok(res)
+        return None if f is None else int(f[0].split(",")[1]) - 1
+    for n in ((4, 6, 12) if tier == "quick" else (3, 4, 6, 7, 8, 12, 20, 37, 100)):
+        items = ",".join(map(str, range(n)))
+        ps.append(("partial_shuffle(%d elements, 2): element placed second" % n, n - 1, 64, (lambda w, items=items: "pshuf items=%s m=2 words=1,%d" % (items, w)), second,
+                   (lambda w1, w2, items=items: "pshuf items=%s m=2 words=1,%d,%d" % (items, w1, w2))))
     # mid-sized slices (the element that reaches the front of a slice of n zero bytes with one mark): request bigshuf
     def frontbig(res):
         f = O.parse_ok(res)
